@@ -104,8 +104,14 @@ def dump_real(objs, codec, encoding, how, tmpdir):
     state = {'ended': 'open'}
     kw = _kw(codec, encoding)
     w = None
-    if how == 'path':
+    cwd = None
+    if how in ('path', 'bare'):
         target = os.path.join(tmpdir, _name('dump'))
+        if how == 'bare':
+            # a file name without a directory part, relative to the working directory
+            cwd = os.getcwd()
+            os.chdir(tmpdir)
+            arg = os.path.basename(target)
     elif how == 'open_obj':
         w = Writer()
         kw['open_obj'] = lambda name, mode, encoding=None: w
@@ -118,12 +124,15 @@ def dump_real(objs, codec, encoding, how, tmpdir):
         state['ended'] = 'error:dump:%s' % type(e).__name__
     try:
         with C.quiet_stdout():
-            rx.from_(objs).pipe(rj.dump_to_file(target, **kw)).subscribe(
+            rx.from_(objs).pipe(rj.dump_to_file(arg if how == 'bare' else target, **kw)).subscribe(
                 on_next=lambda i: None, on_error=on_error,
                 on_completed=lambda: state.__setitem__('ended', 'completed'))
     except Exception as e:
         state['ended'] = 'raised:dump:%s' % type(e).__name__
-    if how == 'path':
+    finally:
+        if cwd is not None:
+            os.chdir(cwd)
+    if how in ('path', 'bare'):
         try:
             with open(target, 'rb') as f:
                 data = f.read()
@@ -653,6 +662,8 @@ def rnd_case(desc):
             objs.insert(j, C.json.loads(C.json.dumps(objs[j])))     # an equal object, twice
     dump_how = rng.choice(['path', 'open_obj', 'fileobj'])
     load_how = rng.choice(['path', 'open_obj', 'fileobj', 'fileobj'])
+    if dump_how == 'path' and desc['n'] % 3 == 0:
+        dump_how = 'bare'
     style = rng.choice(['full', 'ones', 'small', 'any', 'near'])
     prng = random.Random(rng.getrandbits(32))
 
